@@ -71,7 +71,7 @@ def enum_cfg(cfg):
     scale = np.ones(D) if scale_kind == "ones" else np.array([0.5, 2.0, 1.0, 4.0][:D])
     mesh = 2.0**-3
     smesh = mesh * ratio if ratio > 0 else mesh * 2.0**-10
-    nmax = max(1, int(round(smesh / mesh)))
+    nmax = max(1, int(np.round(smesh / mesh)))
     full = lambda idx: idx[0] > idx[1]  # strictly lower triangle: the entries the statement talks about
     extreme = (lambda idx: idx[0] < idx[1]) if upper == "extremes" else None
     if upper == "full":
@@ -116,9 +116,13 @@ def run(ctx):
     # ---- E3-random
     cfgs = []
     for D in (1, 2, 3):
-        for ratio in (0, 1, 2, 4):
+        for ratio in (0, 1, 2, 4, 1.41, 2.83, 1.5):
             for sk in ("ones", "mixed"):
-                if D == 3 and ratio == 4:
+                if ratio not in (0, 1, 2, 4):
+                    upper = "extremes" if D == 3 else "full"
+                    if sk == "mixed" and q:
+                        continue
+                elif D == 3 and ratio == 4:
                     upper = "none" if q else "extremes"
                 elif D == 3 and ratio == 2:
                     upper = "extremes" if q else "full"
@@ -151,6 +155,11 @@ def run(ctx):
     # mesh ratios > 1 in full runs need a non-default search grid
     base += [job(D, g, "det", "sphere_corner", seeds[0], opts={"search_size_locked": False, "search_grid_multiplier": 1, "search_grid_number": -1 * r})
              for D in (2, 3) for g in ("lin", "lin2") for r in (1, 2)]
+    # search-triggered mesh expansion between polls (the mesh exponent changes outside a poll step under this documented option)
+    base += [job(D, g, "det", t, s, opts={"search_mesh_expand": 1, "max_fun_evals": 80}) for D in (1, 2, 3) for g in ("lin", "lin2") for t in ("sphere_in", "sphere_corner") for s in seeds]
+    base += [dict(job(D, "lin", "det", "adv", seeds[0], opts={"search_mesh_expand": 1, "tol_mesh": 2.0**-4, "max_fun_evals": 50}), base=b) for D in (1, 2) for b in ("S4", "I")]
+    # non-integer mesh ratios
+    base += [job(D, "lin", "det", "sphere_corner", seeds[0], opts={"search_grid_multiplier": 0.5, "search_grid_number": 0, "search_size_locked": False}) for D in (2, 3)]
     # poll-related options
     base += [job(D, g, "det", "sphere_corner", seeds[0], opts=o) for D in (1, 2, 3) for g in ("lin", "lin2") for o in
              ({"force_poll_mesh": True}, {"force_poll_mesh": True, "search_grid_number": 3}, {"complete_poll": True}, {"gp_rescale_poll": 0.5}, {"search_grid_number": 4}, {"poll_training": False})]
